@@ -36,125 +36,125 @@ package grammar
 // keys a helper may write are inferred from its code.
 
 //@ func parser.parseExpr(p, expr) (val, ok)
-//@   requires p != nil && p.Stats != nil && p.Stats.ExprCnt <= p.maxExprCnt
+//@   requires p != nil && p.Stats != nil && p.Stats.ExprCnt <= p.maxExprCnt && p.errs != nil
 //@   assume p.Stats.ExprCnt < 18446744073709551615
-//@   ensures[C11] budget: p.Stats == old(p.Stats) && p.maxExprCnt == old(p.maxExprCnt) && p.Stats.ExprCnt >= old(p.Stats.ExprCnt) && p.Stats.ExprCnt <= p.maxExprCnt
+//@   ensures[C11] budget: p.Stats == old(p.Stats) && p.maxExprCnt == old(p.maxExprCnt) && p.Stats.ExprCnt >= old(p.Stats.ExprCnt) && p.Stats.ExprCnt <= p.maxExprCnt && p.errs == old(p.errs)
 //@   ensures[C11] step: p.Stats.ExprCnt >= old(p.Stats.ExprCnt) + 1
 //@   panics_only_if[C11] exceeded: old(p.Stats.ExprCnt) + 1 > p.maxExprCnt || !knownExprTag(dyn(expr))
 //@   may_panic
 
 //@ func parser.parseRule(p, rule) (val, ok)
-//@   requires p != nil && p.Stats != nil && p.Stats.ExprCnt <= p.maxExprCnt
-//@   ensures[C11] budget: p.Stats == old(p.Stats) && p.maxExprCnt == old(p.maxExprCnt) && p.Stats.ExprCnt >= old(p.Stats.ExprCnt) && p.Stats.ExprCnt <= p.maxExprCnt
+//@   requires p != nil && p.Stats != nil && p.Stats.ExprCnt <= p.maxExprCnt && p.errs != nil
+//@   ensures[C11] budget: p.Stats == old(p.Stats) && p.maxExprCnt == old(p.maxExprCnt) && p.Stats.ExprCnt >= old(p.Stats.ExprCnt) && p.Stats.ExprCnt <= p.maxExprCnt && p.errs == old(p.errs)
 //@   may_panic
 
 //@ func parser.parseActionExpr(p, act) (val, ok)
-//@   requires p != nil && p.Stats != nil && p.Stats.ExprCnt <= p.maxExprCnt
-//@   ensures[C11] budget: p.Stats == old(p.Stats) && p.maxExprCnt == old(p.maxExprCnt) && p.Stats.ExprCnt >= old(p.Stats.ExprCnt) && p.Stats.ExprCnt <= p.maxExprCnt
+//@   requires p != nil && p.Stats != nil && p.Stats.ExprCnt <= p.maxExprCnt && p.errs != nil
+//@   ensures[C11] budget: p.Stats == old(p.Stats) && p.maxExprCnt == old(p.maxExprCnt) && p.Stats.ExprCnt >= old(p.Stats.ExprCnt) && p.Stats.ExprCnt <= p.maxExprCnt && p.errs == old(p.errs)
 //@   may_panic
 
 //@ func parser.parseAndCodeExpr(p, and) (val, ok)
-//@   requires p != nil && p.Stats != nil && p.Stats.ExprCnt <= p.maxExprCnt
-//@   ensures[C11] budget: p.Stats == old(p.Stats) && p.maxExprCnt == old(p.maxExprCnt) && p.Stats.ExprCnt >= old(p.Stats.ExprCnt) && p.Stats.ExprCnt <= p.maxExprCnt
+//@   requires p != nil && p.Stats != nil && p.Stats.ExprCnt <= p.maxExprCnt && p.errs != nil
+//@   ensures[C11] budget: p.Stats == old(p.Stats) && p.maxExprCnt == old(p.maxExprCnt) && p.Stats.ExprCnt >= old(p.Stats.ExprCnt) && p.Stats.ExprCnt <= p.maxExprCnt && p.errs == old(p.errs)
 //@   may_panic
 
 //@ func parser.parseAndExpr(p, and) (val, ok)
-//@   requires p != nil && p.Stats != nil && p.Stats.ExprCnt <= p.maxExprCnt
-//@   ensures[C11] budget: p.Stats == old(p.Stats) && p.maxExprCnt == old(p.maxExprCnt) && p.Stats.ExprCnt >= old(p.Stats.ExprCnt) && p.Stats.ExprCnt <= p.maxExprCnt
+//@   requires p != nil && p.Stats != nil && p.Stats.ExprCnt <= p.maxExprCnt && p.errs != nil
+//@   ensures[C11] budget: p.Stats == old(p.Stats) && p.maxExprCnt == old(p.maxExprCnt) && p.Stats.ExprCnt >= old(p.Stats.ExprCnt) && p.Stats.ExprCnt <= p.maxExprCnt && p.errs == old(p.errs)
 //@   may_panic
 
 //@ func parser.parseAnyMatcher(p, any) (val, ok)
-//@   requires p != nil && p.Stats != nil && p.Stats.ExprCnt <= p.maxExprCnt
-//@   ensures[C11] budget: p.Stats == old(p.Stats) && p.maxExprCnt == old(p.maxExprCnt) && p.Stats.ExprCnt >= old(p.Stats.ExprCnt) && p.Stats.ExprCnt <= p.maxExprCnt
+//@   requires p != nil && p.Stats != nil && p.Stats.ExprCnt <= p.maxExprCnt && p.errs != nil
+//@   ensures[C11] budget: p.Stats == old(p.Stats) && p.maxExprCnt == old(p.maxExprCnt) && p.Stats.ExprCnt >= old(p.Stats.ExprCnt) && p.Stats.ExprCnt <= p.maxExprCnt && p.errs == old(p.errs)
 //@   may_panic
 
 //@ func parser.parseCharClassMatcher(p, chr) (val, ok)
-//@   requires p != nil && p.Stats != nil && p.Stats.ExprCnt <= p.maxExprCnt
-//@   ensures[C11] budget: p.Stats == old(p.Stats) && p.maxExprCnt == old(p.maxExprCnt) && p.Stats.ExprCnt >= old(p.Stats.ExprCnt) && p.Stats.ExprCnt <= p.maxExprCnt
+//@   requires p != nil && p.Stats != nil && p.Stats.ExprCnt <= p.maxExprCnt && p.errs != nil
+//@   ensures[C11] budget: p.Stats == old(p.Stats) && p.maxExprCnt == old(p.maxExprCnt) && p.Stats.ExprCnt >= old(p.Stats.ExprCnt) && p.Stats.ExprCnt <= p.maxExprCnt && p.errs == old(p.errs)
 //@   may_panic
 //@   loop 1:
-//@     invariant p.Stats == old(p.Stats) && p.maxExprCnt == old(p.maxExprCnt) && p.Stats.ExprCnt >= old(p.Stats.ExprCnt) && p.Stats.ExprCnt <= p.maxExprCnt && p.Stats != nil
+//@     invariant p.Stats == old(p.Stats) && p.maxExprCnt == old(p.maxExprCnt) && p.Stats.ExprCnt >= old(p.Stats.ExprCnt) && p.Stats.ExprCnt <= p.maxExprCnt && p.errs == old(p.errs) && p.Stats != nil
 //@   loop 2:
-//@     invariant p.Stats == old(p.Stats) && p.maxExprCnt == old(p.maxExprCnt) && p.Stats.ExprCnt >= old(p.Stats.ExprCnt) && p.Stats.ExprCnt <= p.maxExprCnt && p.Stats != nil
+//@     invariant p.Stats == old(p.Stats) && p.maxExprCnt == old(p.maxExprCnt) && p.Stats.ExprCnt >= old(p.Stats.ExprCnt) && p.Stats.ExprCnt <= p.maxExprCnt && p.errs == old(p.errs) && p.Stats != nil
 //@   loop 3:
-//@     invariant p.Stats == old(p.Stats) && p.maxExprCnt == old(p.maxExprCnt) && p.Stats.ExprCnt >= old(p.Stats.ExprCnt) && p.Stats.ExprCnt <= p.maxExprCnt && p.Stats != nil
+//@     invariant p.Stats == old(p.Stats) && p.maxExprCnt == old(p.maxExprCnt) && p.Stats.ExprCnt >= old(p.Stats.ExprCnt) && p.Stats.ExprCnt <= p.maxExprCnt && p.errs == old(p.errs) && p.Stats != nil
 
 //@ func parser.parseChoiceExpr(p, ch) (val, ok)
-//@   requires p != nil && p.Stats != nil && p.Stats.ExprCnt <= p.maxExprCnt
-//@   ensures[C11] budget: p.Stats == old(p.Stats) && p.maxExprCnt == old(p.maxExprCnt) && p.Stats.ExprCnt >= old(p.Stats.ExprCnt) && p.Stats.ExprCnt <= p.maxExprCnt
+//@   requires p != nil && p.Stats != nil && p.Stats.ExprCnt <= p.maxExprCnt && p.errs != nil
+//@   ensures[C11] budget: p.Stats == old(p.Stats) && p.maxExprCnt == old(p.maxExprCnt) && p.Stats.ExprCnt >= old(p.Stats.ExprCnt) && p.Stats.ExprCnt <= p.maxExprCnt && p.errs == old(p.errs)
 //@   may_panic
 //@   loop 1:
-//@     invariant p.Stats == old(p.Stats) && p.maxExprCnt == old(p.maxExprCnt) && p.Stats.ExprCnt >= old(p.Stats.ExprCnt) && p.Stats.ExprCnt <= p.maxExprCnt && p.Stats != nil
+//@     invariant p.Stats == old(p.Stats) && p.maxExprCnt == old(p.maxExprCnt) && p.Stats.ExprCnt >= old(p.Stats.ExprCnt) && p.Stats.ExprCnt <= p.maxExprCnt && p.errs == old(p.errs) && p.Stats != nil
 
 //@ func parser.parseLabeledExpr(p, lab) (val, ok)
-//@   requires p != nil && p.Stats != nil && p.Stats.ExprCnt <= p.maxExprCnt
-//@   ensures[C11] budget: p.Stats == old(p.Stats) && p.maxExprCnt == old(p.maxExprCnt) && p.Stats.ExprCnt >= old(p.Stats.ExprCnt) && p.Stats.ExprCnt <= p.maxExprCnt
+//@   requires p != nil && p.Stats != nil && p.Stats.ExprCnt <= p.maxExprCnt && p.errs != nil
+//@   ensures[C11] budget: p.Stats == old(p.Stats) && p.maxExprCnt == old(p.maxExprCnt) && p.Stats.ExprCnt >= old(p.Stats.ExprCnt) && p.Stats.ExprCnt <= p.maxExprCnt && p.errs == old(p.errs)
 //@   may_panic
 
 //@ func parser.parseLitMatcher(p, lit) (val, ok)
-//@   requires p != nil && p.Stats != nil && p.Stats.ExprCnt <= p.maxExprCnt
-//@   ensures[C11] budget: p.Stats == old(p.Stats) && p.maxExprCnt == old(p.maxExprCnt) && p.Stats.ExprCnt >= old(p.Stats.ExprCnt) && p.Stats.ExprCnt <= p.maxExprCnt
+//@   requires p != nil && p.Stats != nil && p.Stats.ExprCnt <= p.maxExprCnt && p.errs != nil
+//@   ensures[C11] budget: p.Stats == old(p.Stats) && p.maxExprCnt == old(p.maxExprCnt) && p.Stats.ExprCnt >= old(p.Stats.ExprCnt) && p.Stats.ExprCnt <= p.maxExprCnt && p.errs == old(p.errs)
 //@   may_panic
 //@   loop 1:
-//@     invariant p.Stats == old(p.Stats) && p.maxExprCnt == old(p.maxExprCnt) && p.Stats.ExprCnt >= old(p.Stats.ExprCnt) && p.Stats.ExprCnt <= p.maxExprCnt && p.Stats != nil
+//@     invariant p.Stats == old(p.Stats) && p.maxExprCnt == old(p.maxExprCnt) && p.Stats.ExprCnt >= old(p.Stats.ExprCnt) && p.Stats.ExprCnt <= p.maxExprCnt && p.errs == old(p.errs) && p.Stats != nil
 
 //@ func parser.parseNotCodeExpr(p, not) (val, ok)
-//@   requires p != nil && p.Stats != nil && p.Stats.ExprCnt <= p.maxExprCnt
-//@   ensures[C11] budget: p.Stats == old(p.Stats) && p.maxExprCnt == old(p.maxExprCnt) && p.Stats.ExprCnt >= old(p.Stats.ExprCnt) && p.Stats.ExprCnt <= p.maxExprCnt
+//@   requires p != nil && p.Stats != nil && p.Stats.ExprCnt <= p.maxExprCnt && p.errs != nil
+//@   ensures[C11] budget: p.Stats == old(p.Stats) && p.maxExprCnt == old(p.maxExprCnt) && p.Stats.ExprCnt >= old(p.Stats.ExprCnt) && p.Stats.ExprCnt <= p.maxExprCnt && p.errs == old(p.errs)
 //@   may_panic
 
 //@ func parser.parseNotExpr(p, not) (val, ok)
-//@   requires p != nil && p.Stats != nil && p.Stats.ExprCnt <= p.maxExprCnt
-//@   ensures[C11] budget: p.Stats == old(p.Stats) && p.maxExprCnt == old(p.maxExprCnt) && p.Stats.ExprCnt >= old(p.Stats.ExprCnt) && p.Stats.ExprCnt <= p.maxExprCnt
+//@   requires p != nil && p.Stats != nil && p.Stats.ExprCnt <= p.maxExprCnt && p.errs != nil
+//@   ensures[C11] budget: p.Stats == old(p.Stats) && p.maxExprCnt == old(p.maxExprCnt) && p.Stats.ExprCnt >= old(p.Stats.ExprCnt) && p.Stats.ExprCnt <= p.maxExprCnt && p.errs == old(p.errs)
 //@   may_panic
 
 //@ func parser.parseOneOrMoreExpr(p, expr) (val, ok)
-//@   requires p != nil && p.Stats != nil && p.Stats.ExprCnt <= p.maxExprCnt
-//@   ensures[C11] budget: p.Stats == old(p.Stats) && p.maxExprCnt == old(p.maxExprCnt) && p.Stats.ExprCnt >= old(p.Stats.ExprCnt) && p.Stats.ExprCnt <= p.maxExprCnt
+//@   requires p != nil && p.Stats != nil && p.Stats.ExprCnt <= p.maxExprCnt && p.errs != nil
+//@   ensures[C11] budget: p.Stats == old(p.Stats) && p.maxExprCnt == old(p.maxExprCnt) && p.Stats.ExprCnt >= old(p.Stats.ExprCnt) && p.Stats.ExprCnt <= p.maxExprCnt && p.errs == old(p.errs)
 //@   may_panic
 //@   loop 1:
-//@     invariant p.Stats == old(p.Stats) && p.maxExprCnt == old(p.maxExprCnt) && p.Stats.ExprCnt >= old(p.Stats.ExprCnt) && p.Stats.ExprCnt <= p.maxExprCnt && p.Stats != nil
+//@     invariant p.Stats == old(p.Stats) && p.maxExprCnt == old(p.maxExprCnt) && p.Stats.ExprCnt >= old(p.Stats.ExprCnt) && p.Stats.ExprCnt <= p.maxExprCnt && p.errs == old(p.errs) && p.Stats != nil
 
 //@ func parser.parseRecoveryExpr(p, recover) (val, ok)
-//@   requires p != nil && p.Stats != nil && p.Stats.ExprCnt <= p.maxExprCnt
-//@   ensures[C11] budget: p.Stats == old(p.Stats) && p.maxExprCnt == old(p.maxExprCnt) && p.Stats.ExprCnt >= old(p.Stats.ExprCnt) && p.Stats.ExprCnt <= p.maxExprCnt
+//@   requires p != nil && p.Stats != nil && p.Stats.ExprCnt <= p.maxExprCnt && p.errs != nil
+//@   ensures[C11] budget: p.Stats == old(p.Stats) && p.maxExprCnt == old(p.maxExprCnt) && p.Stats.ExprCnt >= old(p.Stats.ExprCnt) && p.Stats.ExprCnt <= p.maxExprCnt && p.errs == old(p.errs)
 //@   may_panic
 
 //@ func parser.parseRuleRefExpr(p, ref) (val, ok)
-//@   requires p != nil && p.Stats != nil && p.Stats.ExprCnt <= p.maxExprCnt
-//@   ensures[C11] budget: p.Stats == old(p.Stats) && p.maxExprCnt == old(p.maxExprCnt) && p.Stats.ExprCnt >= old(p.Stats.ExprCnt) && p.Stats.ExprCnt <= p.maxExprCnt
+//@   requires p != nil && p.Stats != nil && p.Stats.ExprCnt <= p.maxExprCnt && p.errs != nil
+//@   ensures[C11] budget: p.Stats == old(p.Stats) && p.maxExprCnt == old(p.maxExprCnt) && p.Stats.ExprCnt >= old(p.Stats.ExprCnt) && p.Stats.ExprCnt <= p.maxExprCnt && p.errs == old(p.errs)
 //@   may_panic
 
 //@ func parser.parseSeqExpr(p, seq) (val, ok)
-//@   requires p != nil && p.Stats != nil && p.Stats.ExprCnt <= p.maxExprCnt
-//@   ensures[C11] budget: p.Stats == old(p.Stats) && p.maxExprCnt == old(p.maxExprCnt) && p.Stats.ExprCnt >= old(p.Stats.ExprCnt) && p.Stats.ExprCnt <= p.maxExprCnt
+//@   requires p != nil && p.Stats != nil && p.Stats.ExprCnt <= p.maxExprCnt && p.errs != nil
+//@   ensures[C11] budget: p.Stats == old(p.Stats) && p.maxExprCnt == old(p.maxExprCnt) && p.Stats.ExprCnt >= old(p.Stats.ExprCnt) && p.Stats.ExprCnt <= p.maxExprCnt && p.errs == old(p.errs)
 //@   may_panic
 //@   loop 1:
-//@     invariant p.Stats == old(p.Stats) && p.maxExprCnt == old(p.maxExprCnt) && p.Stats.ExprCnt >= old(p.Stats.ExprCnt) && p.Stats.ExprCnt <= p.maxExprCnt && p.Stats != nil
+//@     invariant p.Stats == old(p.Stats) && p.maxExprCnt == old(p.maxExprCnt) && p.Stats.ExprCnt >= old(p.Stats.ExprCnt) && p.Stats.ExprCnt <= p.maxExprCnt && p.errs == old(p.errs) && p.Stats != nil
 
 //@ func parser.parseThrowExpr(p, expr) (val, ok)
-//@   requires p != nil && p.Stats != nil && p.Stats.ExprCnt <= p.maxExprCnt
-//@   ensures[C11] budget: p.Stats == old(p.Stats) && p.maxExprCnt == old(p.maxExprCnt) && p.Stats.ExprCnt >= old(p.Stats.ExprCnt) && p.Stats.ExprCnt <= p.maxExprCnt
+//@   requires p != nil && p.Stats != nil && p.Stats.ExprCnt <= p.maxExprCnt && p.errs != nil
+//@   ensures[C11] budget: p.Stats == old(p.Stats) && p.maxExprCnt == old(p.maxExprCnt) && p.Stats.ExprCnt >= old(p.Stats.ExprCnt) && p.Stats.ExprCnt <= p.maxExprCnt && p.errs == old(p.errs)
 //@   may_panic
 //@   loop 1:
-//@     invariant p.Stats == old(p.Stats) && p.maxExprCnt == old(p.maxExprCnt) && p.Stats.ExprCnt >= old(p.Stats.ExprCnt) && p.Stats.ExprCnt <= p.maxExprCnt && p.Stats != nil
+//@     invariant p.Stats == old(p.Stats) && p.maxExprCnt == old(p.maxExprCnt) && p.Stats.ExprCnt >= old(p.Stats.ExprCnt) && p.Stats.ExprCnt <= p.maxExprCnt && p.errs == old(p.errs) && p.Stats != nil
 
 //@ func parser.parseZeroOrMoreExpr(p, expr) (val, ok)
-//@   requires p != nil && p.Stats != nil && p.Stats.ExprCnt <= p.maxExprCnt
-//@   ensures[C11] budget: p.Stats == old(p.Stats) && p.maxExprCnt == old(p.maxExprCnt) && p.Stats.ExprCnt >= old(p.Stats.ExprCnt) && p.Stats.ExprCnt <= p.maxExprCnt
+//@   requires p != nil && p.Stats != nil && p.Stats.ExprCnt <= p.maxExprCnt && p.errs != nil
+//@   ensures[C11] budget: p.Stats == old(p.Stats) && p.maxExprCnt == old(p.maxExprCnt) && p.Stats.ExprCnt >= old(p.Stats.ExprCnt) && p.Stats.ExprCnt <= p.maxExprCnt && p.errs == old(p.errs)
 //@   may_panic
 //@   loop 1:
-//@     invariant p.Stats == old(p.Stats) && p.maxExprCnt == old(p.maxExprCnt) && p.Stats.ExprCnt >= old(p.Stats.ExprCnt) && p.Stats.ExprCnt <= p.maxExprCnt && p.Stats != nil
+//@     invariant p.Stats == old(p.Stats) && p.maxExprCnt == old(p.maxExprCnt) && p.Stats.ExprCnt >= old(p.Stats.ExprCnt) && p.Stats.ExprCnt <= p.maxExprCnt && p.errs == old(p.errs) && p.Stats != nil
 
 //@ func parser.parseZeroOrOneExpr(p, expr) (val, ok)
-//@   requires p != nil && p.Stats != nil && p.Stats.ExprCnt <= p.maxExprCnt
-//@   ensures[C11] budget: p.Stats == old(p.Stats) && p.maxExprCnt == old(p.maxExprCnt) && p.Stats.ExprCnt >= old(p.Stats.ExprCnt) && p.Stats.ExprCnt <= p.maxExprCnt
+//@   requires p != nil && p.Stats != nil && p.Stats.ExprCnt <= p.maxExprCnt && p.errs != nil
+//@   ensures[C11] budget: p.Stats == old(p.Stats) && p.maxExprCnt == old(p.maxExprCnt) && p.Stats.ExprCnt >= old(p.Stats.ExprCnt) && p.Stats.ExprCnt <= p.maxExprCnt && p.errs == old(p.errs)
 //@   may_panic
 
 // ---- C11 / C10: how the budget and the recover flag reach the parser ----------
 //@ func newParser(filename, b, opts) (p)
 //@   requires wfGOpts(opts)
-//@   ensures[C11] p != nil && p.Stats != nil && p.Stats.ExprCnt == 0
+//@   ensures[C11] p != nil && p.Stats != nil && p.Stats.ExprCnt == 0 && p.errs != nil
 //@   ensures[C11] budget: p.maxExprCnt == ite(gBudget(opts) == 0, 18446744073709551615, gBudget(opts))
 //@   ensures[C10] recover: p.recover == gFoldRecover(opts, true)
 //@   may_panic
@@ -491,3 +491,37 @@ package grammar
 //@   loop 1:
 //@     invariant -1 <= rangeindex && rangeindex < len(rangeslice) && rangeslice == unbox[[]any](ptrsegs) && sel.Type == SelectorTypeJsonPointer
 //@     invariant[C15,C07] sel.Path == strsOf(rangeslice[0:rangeindex+1])
+
+// ---- C10 / C11: parse turns every panic into (nil, error) when the recover flag is on ----
+//@ func errList.add(e, err) ()
+//@   requires e != nil
+//@   ensures[C10] len(deref(e)) == old(len(deref(e))) + 1
+//@   assigns deref.Sl.Any@e
+//@ func errList.dedupe(e) ()
+//@   requires e != nil
+//@   may_panic
+//@   assigns deref.Sl.Any@e
+//@ func errList.err(e) (res)
+//@   ensures[C10] (res == nil) == (len(e) == 0)
+//@   assigns nothing
+//@ func parser.addErrAt(p, err, pos, expected) ()
+//@   requires p != nil && p.errs != nil
+//@   ensures[C10] p.errs == old(p.errs) && len(deref(p.errs)) == old(len(deref(p.errs))) + 1
+//@   may_panic
+//@   assigns deref.Sl.Any@p.errs
+//@ func parser.addErr(p, err) ()
+//@   requires p != nil && p.errs != nil
+//@   ensures[C10] p.errs == old(p.errs) && len(deref(p.errs)) == old(len(deref(p.errs))) + 1
+//@   may_panic
+//@   assigns deref.Sl.Any@p.errs
+// the deferred closure of parse: without a panic it changes nothing the caller
+// sees; after a panic it sets the named results to (nil, non-nil error)
+//@ func parser.parse$1() ()
+//@   requires p != nil && deref(p) != nil && deref(p).errs != nil && val != nil && err != nil && val != err
+//@   ensures[C10,C11] unchanged: !recovered ==> deref(val) == old(deref(val)) && deref(err) == old(deref(err))
+//@   ensures[C10,C11] reported: recovered ==> deref(val) == nil && deref(err) != nil
+//@   may_panic
+//@ func parser.parse(p, g) (val, err)
+//@   requires p != nil && g != nil && p.errs != nil && p.Stats != nil && p.Stats.ExprCnt <= p.maxExprCnt
+//@   ensures_recovered[C10,C11] reported: val == nil && err != nil
+//@   may_panic
